@@ -186,6 +186,7 @@ Qed.
 (* ---------- the state invariant ---------- *)
 
 Definition grp (hp : list group) (g : nat) : group := nth g hp dummy_group.
+Arguments grp : simpl never.
 
 Definition pc_ok (hp : list group) (lg : list ann) (p : pc) : Prop :=
   match p with
@@ -309,7 +310,7 @@ Proof.
       * rewrite app_length. lia.
       * intros g Hg. rewrite grp_app_old by exact Hg. split; [reflexivity|]. intros HD. left. auto.
     + cbn. rewrite app_length, grp_app_new. cbn. split; [lia|reflexivity].
-  - rewrite FREE. exact I.
+  - rewrite FREE. exact Logic.I.
 Qed.
 
 (* one group object is replaced by a version with the same key, deleted flag and dead log *)
@@ -396,7 +397,7 @@ Lemma inv_cg_delete : forall s h g todo, inv s -> smu s = Some (CgDelete h g tod
 Proof.
   intros s h g todo I SM LT. pose proof I as []. rewrite SM in i_cg0. destruct i_cg0 as (INM & NDK & INC).
   destruct (i_gmap0 h g INM) as (Hg & HH & ED).
-  inversion NDK as [|? ? HNI NDT]; subst.
+  apply NoDup_cons_iff in NDK as [HNI NDT].
   constructor; cbn.
   - intros g' Hg'. rewrite set_nth_length in Hg'. destruct (Nat.eq_dec g g') as [<-|Hne].
     + rewrite grp_set_eq by exact Hg. apply ginv_delete; auto.
@@ -409,7 +410,7 @@ Proof.
     + rewrite grp_set_eq in HD by exact Hg. discriminate.
     + rewrite grp_set_neq in * by exact Hne. apply in_adel. split; [apply i_live0; auto|].
       intros E. apply Hne. pose proof (i_live0 g' Hg' HD) as IN'. rewrite E in IN'.
-      eapply nodup_keys_inj; eauto.
+      exact (nodup_keys_inj _ _ _ _ i_keys0 INM IN').
   - exact i_time0.
   - intros h' Hn a Ha E. destruct (N.eq_dec h' h) as [->|Hne].
     + pose proof (i_groups0 g Hg) as (_ & _ & GL). rewrite ED in GL. destruct GL as (_ & B & _).
@@ -442,3 +443,97 @@ Proof.
     + apply N.ltb_lt in E. apply inv_cg_delete; auto.
     + apply inv_with_smu; auto. cbn. destruct CG as (_ & ND & INC). inversion ND; subst. auto.
 Qed.
+
+Lemma NoDup_map_inj_on {A B} : forall (f : A -> B) l,
+  NoDup l -> (forall x y, In x l -> In y l -> f x = f y -> x = y) -> NoDup (map f l).
+Proof.
+  intros f l ND. induction ND as [|a t Hn ND IH]; intros INJ; cbn; constructor.
+  - intros H. apply in_map_iff in H as [y [E Hy]]. assert (y = a) by (apply INJ; cbn; auto). subst. tauto.
+  - apply IH. intros; apply INJ; cbn; auto.
+Qed.
+
+(* local.go:245-248: the pass takes s.mu and ranges over the map, each key once *)
+Lemma inv_cg_start : forall s order, inv s -> smu_free s = true ->
+  is_perm order (seq 0 (length (gmap s))) = true ->
+  inv (with_smu s (Some (CgCheck (pick (0, 0%nat) (gmap s) order)))).
+Proof.
+  intros s order I FREE P. apply inv_with_smu; [exact I|]. cbn.
+  apply is_perm_spec in P as (_ & ND & IN).
+  assert (LT : forall i, In i order -> (i < length (gmap s))%nat).
+  { intros i Hi. apply IN in Hi. apply in_seq in Hi. lia. }
+  split.
+  - unfold pick. rewrite map_map. apply NoDup_map_inj_on; [exact ND|].
+    intros x y Hx Hy E.
+    pose proof (i_keys s I) as NK. rewrite NoDup_nth with (d := 0) in NK.
+    apply NK; rewrite ?map_length; auto.
+    rewrite !(map_nth fst) with (d := (0, 0%nat)) in *. exact E.
+  - intros x Hx. unfold pick in Hx. apply in_map_iff in Hx as [i [<- Hi]]. apply nth_In. auto.
+Qed.
+
+Lemma inv_run_thread : forall s tid orc p s', inv s -> nth_error (threads s) tid = Some p ->
+  run_thread s tid orc p = Some s' -> inv s'.
+Proof.
+  intros s tid orc p s' I NTH RUN.
+  assert (PC : pc_ok (heap s) (log s) p).
+  { pose proof (i_threads s I) as FA. rewrite Forall_forall in FA. apply FA. eapply nth_error_In; eauto. }
+  destruct p as [h pr|h pr g|h n|h n g log0| |todo|g ex todo|res]; cbn in RUN.
+  - (* announcer: lookup / insert group *)
+    destruct (smu_free s) eqn:FREE; [|discriminate].
+    destruct (assoc h (gmap s)) as [g|] eqn:AS; inversion RUN; subst s'.
+    + apply inv_set_thread; [exact I|]. cbn. apply assoc_in in AS.
+      destruct (i_gmap s I h g AS) as (H1 & H2 & _). auto.
+    + apply inv_ann_new; auto.
+  - (* announcer: lock the group, retry or update *)
+    destruct (g_deleted (group_at s g)) eqn:ED; inversion RUN; subst s'.
+    + apply inv_set_thread; [exact I|exact Logic.I].
+    + apply inv_ann_update; auto.
+  - (* reader: lookup *)
+    destruct (smu_free s) eqn:FREE; [|discriminate].
+    destruct (assoc h (gmap s)) as [g|] eqn:AS; inversion RUN; subst s'.
+    + apply inv_set_thread; [exact I|]. cbn. apply assoc_in in AS.
+      destruct (i_gmap s I h g AS) as (H1 & H2 & H3).
+      split; [exact H1|]. split; [exact H2|]. split; [apply suffix_refl|]. congruence.
+    + apply inv_set_thread; [exact I|exact Logic.I].
+  - (* reader: read the list *)
+    destruct (Z.leb (read_count n (group_at s g)) 0).
+    + inversion RUN; subst s'. apply inv_set_thread; [exact I|exact Logic.I].
+    + destruct (valid_idxs orc _ _); inversion RUN; subst s'.
+      apply inv_set_thread; [exact I|exact Logic.I].
+  - (* entry cleanup: snapshot *)
+    destruct (smu_free s); [|discriminate].
+    destruct (is_perm orc (map snd (gmap s))) eqn:P; inversion RUN; subst s'.
+    apply inv_set_thread; [exact I|]. cbn. apply is_perm_spec in P as (_ & _ & IN).
+    apply Forall_forall. intros g Hg. apply IN in Hg. apply in_map_iff in Hg as [[h g'] [E Hin]].
+    cbn in E; subst g'. apply (i_gmap s I) in Hin. tauto.
+  - (* entry cleanup: scan *)
+    destruct todo as [|g todo]; [inversion RUN; subst s'; apply inv_set_thread; [exact I|exact Logic.I]|].
+    cbn in PC. inversion PC as [|? ? Hg FA]; subst.
+    destruct (scan (now s) (group_at s g)); inversion RUN; subst s'; apply inv_set_thread; auto; cbn; auto.
+  - (* entry cleanup: remove *)
+    inversion RUN; subst s'. apply inv_ce_remove; auto.
+  - discriminate.
+Qed.
+
+Theorem inv_step : forall s l s', inv s -> cstep s l = Some s' -> inv s'.
+Proof.
+  intros s l s' I ST. destruct l as [dt|c|tid orc|order|]; cbn in ST.
+  - inversion ST; subst. now apply inv_tick.
+  - inversion ST; subst. now apply inv_spawn.
+  - destruct (nth_error (threads s) tid) as [p|] eqn:NTH; [|discriminate].
+    eapply inv_run_thread; eauto.
+  - destruct (smu_free s) eqn:FREE; [|discriminate].
+    destruct (is_perm order (seq 0 (length (gmap s)))) eqn:P; inversion ST; subst.
+    now apply inv_cg_start.
+  - destruct (smu s) as [c|] eqn:SM; inversion ST; subst. now apply inv_cg_step.
+Qed.
+
+Theorem inv_exec : forall ls s s', inv s -> exec s ls = Some s' -> inv s'.
+Proof.
+  induction ls as [|l t IH]; cbn; intros s s' I H.
+  - inversion H; subst; exact I.
+  - destruct (cstep s l) as [s1|] eqn:ST; [|discriminate]. eapply IH; [|exact H]. eapply inv_step; eauto.
+Qed.
+
+(* every state reached by any schedule from the empty store satisfies the invariant *)
+Theorem inv_reachable : forall t ls s, exec (init t) ls = Some s -> inv s.
+Proof. intros t ls s H. eapply inv_exec; [apply inv_init|exact H]. Qed.
